@@ -44,6 +44,15 @@ WellFormedScenario == Scenario = "wf" => Records(lines).ok
 ConsistentBalances == LET g == Records(lines) IN
    g.ok => \A k \in 1..Len(g.recs) : (Consistent(g.recs[k]) /\ (Foreign(g.recs[k].e) => g.recs[k].x.k = "X")) =>
               LET t == ExpectedTxn(g.recs[k], Rule) IN DecIsZero(SumValued(t.posts, Len(t.posts)))
+\* ---------------------------------------------------------------- refinement of the cursor skeleton
+\* ImportViseca.tla refines ImportVisecaCursor.tla (whose invariant Apalache proves inductive for any statement):
+\* a line is projected on its kind, the record under construction on the shape of its entry line
+KindOf(ln) == IF ln.k = "E" THEN (IF ln.cur = NoneS THEN "Ep" ELSE IF ln.cur = Primary THEN "Es" ELSE "Ef") ELSE ln.k
+Cursor == INSTANCE ImportVisecaCursor WITH lines <- [i \in 1..Len(lines) |-> KindOf(lines[i])],
+                                           ek <- (IF cur.e.k = "E" THEN KindOf(cur.e) ELSE "~")
+RefinesCursor == [][Cursor!Next]_<<lines, pos, peeked, count, pc, cur>>
+CursorInv == Cursor!IndInv
+
 Emit == Done => PrintT(<<"REPLAY", ToJson([module |-> "ImportViseca", scenario |-> Scenario, lines |-> lines, ok |-> (pc = "ok"),
                                             records |-> Len(out),
                                             expect |-> IF pc = "ok" THEN [k \in 1..Len(out) |-> ExpectedTxn(out[k], Rule)] ELSE <<>>])>>)
